@@ -37,7 +37,7 @@ def r1_r2_r4(cx, f):
     if good:
         for t, c in gates:
             ab = cc.absent_edge(t, c)
-            r = cfg.reach(ab[2])
+            r = cfg.after(ab)
             if any(w.bb in r for w in writes): why.append("a write is reachable although conn.%s is None" % ("reader" if (t, c) in nr else "writer"))
             if not any(b in r for b in busy): why.append("the absent edge does not return ConnectionBusy")
         present = {cc.present_edge(t, c) for t, c in gates}
@@ -115,8 +115,8 @@ def r5(cx):
             if not cfg.edge_dominates(no_err, o): why.append("an Ok return is reachable for a reply that carries an error member")
         conv = [x for x in body.calls("=from") if "ErrorKind" in x.callee.resolved and "Reply" in x.callee.resolved]
         if not conv: conv = [x for x in body.calls("=from") if "ErrorKind" in (x.callee.impl_self or x.callee.resolved) and body.ty_is(x.args[0].place.l, "Reply")] if True else []
-        if not conv or not all(x.bb in cfg.reach(has_err[2]) for x in conv): why.append("the error edge does not build its error with ErrorKind::from(reply)")
-        if any(o in cfg.reach(has_err[2]) for o in oks): why.append("the error edge can still return Ok")
+        if not conv or not all(x.bb in cfg.after(has_err) for x in conv): why.append("the error edge does not build its error with ErrorKind::from(reply)")
+        if any(o in cfg.after(has_err) for o in oks): why.append("the error edge can still return Ok")
     cx.check(not why, "C07.R5", "varlink:recv:success-iff-no-error", body.sp, "; ".join(sorted(set(why))), note_ok="reply.error.is_some() ? Err(ErrorKind::from(reply)) : Ok(parameters)")
 
 
